@@ -137,6 +137,33 @@ class _ILoc:
         return Series([o._cols[nm][rows[0]] for nm in o._names], list(o._names), o._index[rows[0]])
 
 
+class _Loc:
+    """label-based row selection: every row whose index label equals the requested label, in request order
+    (a duplicated label therefore yields several rows, and a label requested twice yields its rows twice)"""
+
+    def __init__(self, obj):
+        self._o = obj
+
+    def __getitem__(self, key):
+        o = self._o
+        if isinstance(key, tuple):
+            raise ModelUnsupported(".loc with column selection")
+        labels = npm._as_list(key) if isinstance(key, (list, NDArray, Series, Index)) else [key]
+        rows = []
+        for lab in labels:
+            hits = [i for i, l in enumerate(o._index) if l == lab]
+            if not hits:
+                raise KeyError(lab)
+            rows.extend(hits)
+        if isinstance(o, Series):
+            if not isinstance(key, (list, NDArray, Series, Index)) and len(rows) == 1:
+                return o._values[rows[0]]
+            return Series([o._values[i] for i in rows], [o._index[i] for i in rows], o.name)
+        if not isinstance(key, (list, NDArray, Series, Index)) and len(rows) == 1:
+            return Series([o._cols[n][rows[0]] for n in o._names], list(o._names), o._index[rows[0]])
+        return o._take(rows)
+
+
 def _pos_list(k, n):
     if isinstance(k, slice):
         return list(range(*k.indices(n))), True
@@ -207,6 +234,10 @@ class Series:
     @property
     def iloc(self):
         return _ILoc(self)
+
+    @property
+    def loc(self):
+        return _Loc(self)
 
     @property
     def str(self):
@@ -453,6 +484,10 @@ class DataFrame:
     @property
     def iloc(self):
         return _ILoc(self)
+
+    @property
+    def loc(self):
+        return _Loc(self)
 
     @property
     def values(self):
